@@ -27,12 +27,15 @@
 (*                          was stored with (a stale copy)                                          *)
 (*   DestroysStored         the persistence step removes the stored value without writing the new   *)
 (*                          one: a reader sees neither the old nor the new value (pseudo-token Lost)*)
+(*   CloseRevertsToLoaded   after Resume the workspace holds a second, registered object for the     *)
+(*                          same node; close() re-writes the node from that stale twin: the file     *)
+(*                          falls back to what it held when the session was resumed                  *)
 (*   StaleLive              the value is persisted but the getter keeps answering from a cache the  *)
 (*                          setter does not refresh: the file is right, the live object is not      *)
 EXTENDS Naturals, FiniteSets, Sequences, TLC, TLCExt, Json
 
 CONSTANTS
-    K,            \* number of attribute slots (2 quick, 3 thorough)
+    K,            \* number of attribute slots (1..3; 2 quick, 3 thorough)
     T,            \* new value tokens 1..T per slot (token 0 = value at creation)
     Deviations,   \* {} = Ideal
     WithInvalid,  \* BOOLEAN: SetInvalid (a refused assignment) is part of the behaviours
@@ -45,16 +48,21 @@ Tokens == 0..T
 Lost   == T + 1      \* "none of the values of the domain": what a reader sees after DestroysStored
 Seen   == 0..(T + 1)
 
-VARIABLES live, stored, open, want, hist, last
-vars == <<live, stored, open, want, hist, last>>
-vw   == <<live, stored, open, want, hist>>
+VARIABLES live, stored, open, want, hist, last,
+          stale,    \* the caller still holds the object fetched in an EARLIER session of the same Workspace instance
+          loaded    \* what the file held when the current session began (what a registered twin object carries)
+\* stale / loaded are maintained only when the deviation that needs them is enabled (otherwise they are constant and
+\* do not multiply states)
+Twin == "CloseRevertsToLoaded" \in Deviations
+vars == <<live, stored, open, want, hist, last, stale, loaded>>
+vw   == <<live, stored, open, want, hist, stale, loaded>>
 
 Lbl(act, a, t, out, dev, b, heal) ==
     [act |-> act, a |-> a, t |-> t, out |-> out, dev |-> dev, b |-> b, heal |-> heal]
 
 TypeOK ==
     /\ live \in [Slots -> Seen] /\ stored \in [Slots -> Seen] /\ want \in [Slots -> Tokens]
-    /\ open \in BOOLEAN
+    /\ open \in BOOLEAN /\ stale \in BOOLEAN /\ loaded \in [Slots -> Seen]
 
 Init ==
     /\ live = [s \in Slots |-> 0]
@@ -62,6 +70,8 @@ Init ==
     /\ want = [s \in Slots |-> 0]
     /\ open = TRUE
     /\ hist = <<>>
+    /\ stale = FALSE
+    /\ loaded = [s \in Slots |-> 0]
     /\ last = Lbl("Init", 0, 0, "ok", "", 0, {})
 
 Log(act, a, t) == hist' = IF WithHistory THEN Append(hist, <<act, a, t>>) ELSE hist
@@ -111,7 +121,7 @@ Assign(act, a, t) ==
           /\ last' = Lbl(act, a, t, "ok", o.dev, o.b, o.heal)
     /\ want' = IF TrackWant THEN [want EXCEPT ![a] = t] ELSE want
     /\ Log(act, a, t)
-    /\ UNCHANGED open
+    /\ UNCHANGED <<open, stale, loaded>>
 
 \* assign a valid value different from the current one
 Set(a, t) == t # live[a] /\ Assign("Set", a, t)
@@ -122,20 +132,38 @@ SetInvalid(a) ==
     /\ WithInvalid /\ open
     /\ last' = Lbl("SetInvalid", a, 0, "refused", "", 0, {})
     /\ Log("SetInvalid", a, 0)
-    /\ UNCHANGED <<live, stored, open, want>>
-\* ws.close(): nothing is written for the entity (workspace.py:184-218)
+    /\ UNCHANGED <<live, stored, open, want, stale, loaded>>
+\* ws.close(): nothing is written for the entity (workspace.py close(): save_entity(root) skips what is on file,
+\* io/h5_writer.py write_entity "already in the project" branch)
 Close ==
     /\ open /\ open' = FALSE
-    /\ last' = Lbl("Close", 0, 0, "ok", "", 0, {})
+    /\ \/ /\ stored' = stored
+          /\ last' = Lbl("Close", 0, 0, "ok", "", 0, {})
+       \/ /\ Twin /\ stale /\ stored # loaded
+          /\ stored' = loaded
+          /\ last' = Lbl("Close", 0, 0, "ok", "CloseRevertsToLoaded", 0, {})
     /\ Log("Close", 0, 0)
-    /\ UNCHANGED <<live, stored, want>>
-\* a fresh Workspace(path): every getter now returns what the file holds
+    /\ UNCHANGED <<live, want, stale, loaded>>
+\* a fresh Workspace(path) and a fresh fetch: every getter now returns what the file holds
 Open ==
     /\ ~open /\ open' = TRUE
     /\ live' = stored
+    /\ stale' = FALSE
+    /\ loaded' = IF Twin THEN stored ELSE loaded
     /\ last' = Lbl("Open", 0, 0, "ok", "", 0, {})
     /\ Log("Open", 0, 0)
     /\ UNCHANGED <<stored, want>>
+\* ws.open() on the SAME Workspace instance (also what fetch_active_workspace(ws, mode="r+") does) while the caller keeps
+\* using the entity object fetched in the earlier session: nothing is re-read, the object keeps answering from its own
+\* fields and its setters keep writing through by uid; Workspace.open rebuilds the registry with fresh objects
+\* (workspace.py open(): self._objects = {} ... fetch_or_create_root)
+Resume ==
+    /\ ~open /\ open' = TRUE
+    /\ stale' = IF Twin THEN TRUE ELSE stale
+    /\ loaded' = IF Twin THEN stored ELSE loaded
+    /\ last' = Lbl("Resume", 0, 0, "ok", "", 0, {})
+    /\ Log("Resume", 0, 0)
+    /\ UNCHANGED <<live, stored, want>>
 
 Next ==
     \/ \E a \in Slots, t \in Tokens : Set(a, t)
@@ -143,6 +171,7 @@ Next ==
     \/ \E a \in Slots : SetInvalid(a)
     \/ Close
     \/ Open
+    \/ Resume
 Spec == Init /\ [][Next]_vars
 
 Depth == (~WithHistory) \/ TLCGet("level") <= MaxDepth + 1
@@ -166,8 +195,16 @@ Frame ==
 RefusedChangesNothing == [][last'.act = "SetInvalid" => (live' = live /\ stored' = stored)]_vars
 \* re-opening shows the file
 ReopenShowsFile == [][last'.act = "Open" => live' = stored]_vars
+\* closing and resuming a session never change the file; resuming keeps the object the caller holds
+SessionKeepsFile ==
+    [][(last'.act \in {"Close", "Resume", "Open"}) => stored' = stored]_vars
+ResumeKeepsObject == [][last'.act = "Resume" => live' = live]_vars
 
 \* ------------------------------------------------------------------ export (harness/tlc.py)
-ExportState == PrintT(<<"ST", TLCFP(vw), TLCFP(<<vw, 1>>), ToJson(vw)>>)
+\* the view is printed in a compact form (TLC breaks a tuple that does not fit on one line into several lines, which
+\* harness/tlc.py does not read): a function over the slots is the base-4 number of its values, slot 1 least significant
+Code(f) == f[1] + (IF K >= 2 THEN 4 * f[2] ELSE 0) + (IF K >= 3 THEN 16 * f[3] ELSE 0)
+vwc == <<K, Code(live), Code(stored), open, Code(want), hist, stale, Code(loaded)>>
+ExportState == PrintT(<<"ST", TLCFP(vw), TLCFP(<<vw, 1>>), ToJson(vwc)>>)
 ExportTrans == PrintT(<<"TR", TLCFP(vw), TLCFP(<<vw, 1>>), TLCFP(vw'), TLCFP(<<vw', 1>>), ToJson(last')>>)
 =============================================================================
